@@ -8,9 +8,19 @@ from ..propkit import Kit
 
 def eval_case(case):
     from .. import sim
-    S = O.Static(case)
     out = []
-    b, trace = sim.run_ops(case)
+    pre = case.get("pre")
+    if pre:
+        # an earlier run, then the model edited in place (see propkit.Kit.eval_case): judged as the edited model
+        b, tr_all = sim.run_ops(case, ops=[pre["op"], {"op": "edit", "edit": pre["edit"]}] + case["ops"])
+        trace = tr_all[2:]
+        case = sim.edited_case(case, pre["edit"])
+        case.pop("pre")
+        if any(r["exc"] for r in tr_all[:2]):
+            b, trace = sim.run_ops(case)
+    else:
+        b, trace = sim.run_ops(case)
+    S = O.Static(case)
     if any(op.get("unit_time", 1) != 1 for op in case["ops"]):
         return eval_unit_time(case, S, trace)
     for n, rec in enumerate(trace):
@@ -112,6 +122,10 @@ def gen_cases(rng, n):
             o = gen.gen_sim_op(rng, c)
             o["unit_time"] = rng.choice([2, 2, 3])
             c["ops"] = [o]
+        elif rng.random() < 0.08 and "edges_in" not in c:
+            from .c09 import gen_edit
+            c["ops"][0]["init_state"], c["ops"][0]["init_log"] = True, True
+            c["pre"] = {"op": dict(gen.gen_sim_op(rng, c), init_state=True, init_log=True), "edit": gen_edit(rng, c)}
         cases.append(c)
     return cases
 
